@@ -67,6 +67,7 @@ const R_ALL: &[(&str, Fm)] = &[
     ("||ads.net^$important,image", Fm::Std),
     ("foo$tag=t1", Fm::Std),
     ("bar$tag=t2", Fm::Std),
+    ("bar$tag=t1", Fm::Std),
     ("@@foo$tag=t2", Fm::Std),
     ("bar$tag=t1,important", Fm::Std),
     // twins that a structural rule id cannot tell apart (tag only / sign of the domain list only)
